@@ -16,6 +16,7 @@ extern "C" void h_target(void)
 	for (int i = 0; i < L; i++) {
 		char c = (char)nondet_u8(); vp_assume(c != 0);
 		if (alpha == 1) vp_assume(c == '.' || c == '/' || c == '%' || c == '2' || c == 'e' || c == 'E' || c == 'f' || c == '5' || c == 'a');
+		if (alpha == 2) vp_assume(c == '.' || c == '/' || c == '%' || c == '0' || c == 'a');      // can spell %00
 		t[n++] = c;
 	}
 	n = put(t, n, " HTTP/1.1\r\nHost: h\r\n\r\n");
@@ -25,6 +26,7 @@ extern "C" void h_target(void)
 		Socket s(fd);
 		HttpRequest req(s);
 		vp_assert(!req.path().contains(".."), "the decoded request path never contains '..'");
+		{ String pth = req.path(); for (int i = 0; i + 1 < pth.length(); i++) vp_assert(!(pth[i] == '.' && pth[i + 1] == '.'), "no '..' anywhere in the bytes of the decoded path (also behind an embedded NUL)"); }
 		vp_assert((int)strlen(*req.path()) <= L + 1, "decoded path no longer than the target");
 		vp_note(req.path().length());
 	}
